@@ -2,38 +2,58 @@ import vlib
 
 class P(vlib.Prop):
     id = "C18"
+    watch = ("pkg/apk/fs/rwosfs.go", "pkg/apk/fs/memfs.go", "pkg/tarfs/fs.go", "pkg/apk/apk/install.go", "pkg/apk/apk/cache.go",
+             "pkg/apk/apk/implementation.go", "pkg/apk/apk/common.go", "pkg/apk/apk/index.go", "pkg/apk/expandapk/expandapk.go")
     rule = ("paths stage: hand-picked corners then generated hostile text (.., absolute names, doubled slashes, trailing dots, %-escapes, 300-byte names, "
-            "NUL / invalid UTF-8, sibling-prefix roots) run through the REAL filepath.Clean/Join/Base/Dir/Ext/Abs, sanitizePath, sanitizeArchivePath, "
+            "NUL / invalid UTF-8, sibling-prefix roots) run through the REAL filepath.Clean/Join/Base/Dir/Ext/Abs/Rel, sanitizePath, sanitizeArchivePath, "
             "etagFromResponse, cacheFileFromEtag, cacheDirFromFile, url.QueryEscape, cachePathFromURL, cacheDirForPackage, InitKeyring (key naming, canned transport), "
-            "the key-name check of parseRepositoryIndex, and Lstat on both in-memory trees (tree printed from the real filesystem); every output is compared with the "
-            "Coq model and judged by the validators. canary stage: a temp tree root/ cache/ tmp/ out/ + decoys is snapshotted (path, type, permissions, link count, "
-            "content hash) before and after (a) operation sequences on DirFS(root), (b) hostile tar streams through installAPKFiles on the directory-backed and the "
-            "in-memory backend, (c) InitKeyring with hostile key URLs / ETag headers and a disk cache, (d) key discovery with hostile key ids; every change outside the "
-            "four designated directories must be explained by the model as one of the recorded findings. A case is non-trivial unless the input is already clean / empty; "
-            "distinct = distinct case terms.")
+            "the key-name check of parseRepositoryIndex, hex.DecodeString and the two names cachedPackage builds from a datahash, and Lstat on both in-memory trees "
+            "(tree printed from the real filesystem); every output is compared with the Coq model and judged by the validators. canary stage: a temp tree "
+            "<tmp>/n1/../n7/T/{root,cache,tmp,out} + decoys at every level (so that a name climbing up to nine levels still lands inside the snapshotted tree) is "
+            "snapshotted (path, type, permissions, link count, content hash) before and after (a) operation sequences on DirFS(root); (b) hostile packages — "
+            "regular-file, symlink, hard-link and directory entries under every climbing name (one to five levels, into existing siblings, into new outside "
+            "directories, absolute, '//', './../', re-entering), one entry per package and random mixes — through installAPKFiles and through the whole "
+            "InstallPackages pipeline on the directory-backed (streaming installer), the tar-backed (lazy installer) and the in-memory filesystem, with and "
+            "without the disk cache; (c) InitKeyring with hostile key locations (percent-encoded separators and dot-dots in the last segment, queries, fragments, "
+            "trailing slashes, backslashes) served by a real HTTP server and read from local paths, onto DirFS(root), with hostile ETag headers and a disk cache; "
+            "(d) package and index URLs of the same kinds through FetchPackage / GetRepositoryIndexes with a disk cache; (e) key discovery with hostile key ids; "
+            "(f) cachedPackage with a planted control section whose datahash points anywhere (and a planted member there), and fresh fetches of such packages. "
+            "Every change outside the four designated directories is handed to the verified validator `escapes` and must be explained by the model as one of "
+            "the recorded findings: F1 only for calls that reach the os package on the unchanged code (host-first methods, or tree-checked ones after an "
+            "enabling MkdirAll), F2 only through an accepted call; anything else is a violation. A case is non-trivial unless the input is already clean / "
+            "empty; distinct = distinct case terms.")
     stages = (
         dict(name="paths", cmd="c18", args=lambda t, s: ["-stage", "paths"]),
         dict(name="canary", cmd="c18", args=lambda t, s: ["-stage", "canary"]),
     )
     assumptions = (
         "paths are byte strings and '/' is the only separator (Linux); filepath.Abs is modelled with the working directory as an explicit argument",
-        "net/url's URL.String() is not modelled: the model of cachePathFromURL takes the printed URL as an argument and c18_cache_path assumes it contains a '/' "
+        "net/url's URL.String() is not modelled: the model of cachePathFromURL takes the printed URL as an argument and c18_cache_path_accepts assumes it contains a '/' "
         "(true of every URL with an absolute path); the harness reports the string computed with the same field edits and the model re-derives it for plain URLs",
         "the host kernel resolves a symbolic link found on the way to a path (Model.Confine.resolve); hard links share content with their source",
         "callers hand cachePathFromURL only http(s)/file URLs, whose path is absolute or empty",
+        "the operational dirFS theorems are about Model/DirFS.v (written and tied to the code by C17's correspondence: every step of every DirFS sequence); "
+        "its host is a reference filesystem rooted at the base, so WHERE a climbing name lands is said by the lexical model (c18_clean_join_under), "
+        "THAT the host executes the call by the operational one; the order of the two calls in each method is re-read from rwosfs.go on every run",
+        "a cache directory's content is apko's own (c18_cache_member_datahash_reachable); c18_cache_member holds for any content",
     )
-    level_text = ("Theorems about an executable model of apko's path handling, for all byte strings: lexical confinement of clean(join(base,p)) characterised at component level; "
-                  "the string-prefix tests are refuted as confinement checks (witness /r, ../r2/x) and proved sound when the base ends in a separator or no sibling shares the prefix; "
+    level_text = ("Theorems about executable models of apko's path handling, for all byte strings: lexical confinement of clean(join(base,p)) characterised at component level; "
+                  "sanitizePath / sanitizeArchivePath / dirFS.Link's test are sound (component-wise since the fixes) and the old string-prefix test is refuted; "
                   "every ETag header value becomes one path component over the generated base32 alphabet and its cache file stays in its directory; the cache path of every URL "
-                  "with an absolute path is at or below the cache root (and equal to it only for paths that clean to '/..'); key files are stored under a single component; "
-                  "lookups in the in-memory trees never leave the tree; the directory-backed filesystem is NOT confined (refuted with the two recorded witnesses). "
-                  "The model is tied to the code by goextract (encoding, extensions, shape of each prefix test, key path, maxLinks) and by differential comparison with the real functions; "
+                  "is strictly below the cache root; key files are stored under a single component; lookups in the in-memory trees never leave the tree; "
+                  "the directory-backed filesystem is NOT confined (refuted with the two recorded witnesses) and, over the operational model of dirFS, exactly "
+                  "which methods have the host execute the call before the in-memory tree can refuse the name (all but Create / OpenFile(O_CREATE) / Remove — finding C18-F1), "
+                  "with the positive complement that an operation whose names have no '..' component changes the host only below the base; "
+                  "everything cachedPackage creates for a cached datahash lies in the cache directory whatever the datahash text is (the os.Stat that precedes the hex check can be aimed outside: refuted as a read-confinement claim). "
+                  "The model is tied to the code by goextract (encoding, extensions, shape of each containment test, key path, maxLinks, order of host and overlay calls in every dirFS method, "
+                  "cachedPackage's suffixes and the position of its hex check) and by differential comparison with the real functions; "
                   "the canary-tree experiment validates confinement on the real implementation.")
-    level_note = ("trusted: Coq kernel, goextract, Go harness/printer, the snapshot differ; modelled not verified: Go text of the path functions, path/filepath, net/url, the host kernel; "
+    level_note = ("trusted: Coq kernel, goextract, Go harness/printer, the snapshot differ; modelled not verified: Go text of the path functions, path/filepath, net/url, encoding/hex, the host kernel; "
                   "correspondence and canary runs are testing, not proof")
     design_ref = "DESIGN.md 7 C18"
     modelled_not_verified = ("sanitizePath, sanitizeArchivePath, dirFS.Link's check, etagFromResponse, cacheFileFromEtag, cachePathFromURL, cacheDirForPackage, InitKeyring's key path, the key-name "
-                             "check and getNodeCountLinks are modelled by hand (Model/Confine.v over Base/C18Path.v); URL.String(), archive/tar, net/http and the kernel's path resolution are "
-                             "exercised by the stages only; expandapk/cachedPackage paths built from .PKGINFO datahash are not modelled (see notes/C18.md)")
+                             "check, getNodeCountLinks, cachedPackage's member names / hex check / PackageData's temporary file, and verifyExpanded's datahash test are modelled by hand "
+                             "(Model/Confine.v over Base/C18Path.v); the operational dirFS model is C17's (Model/DirFS.v); URL.String(), archive/tar, net/http, expandapk.ExpandApk's temporary "
+                             "files, fetchAlpineKeys' decoded key name and the kernel's path resolution are exercised by the canary only")
 
 PROP = P()
